@@ -13,7 +13,7 @@ func init() {
 			"(timestamps-order-only) in the functions reachable from Commit.MergeBase, Commit.IsAncestor, Independents and isFastForward — static calls, plus every method of each iterator type those functions instantiate — " +
 			"a commit's Committer.When / Author.When is read only inside a comparator (a function of two parameters of one type returning bool or int, or a Less method), i.e. timestamps can order the work but cannot decide " +
 			"which commits are visited, skipped or returned. A date-based cut-off of the walk (the classic optimisation, wrong as soon as a child is older than its parent) is a read outside a comparator. " +
-			"(ancestor-by-hash) IsAncestor and isFastForward report 'found' only under a comparison of commit hashes. (cursor-recomputed-after-removal) in the same closure a loop that reads s[pos], removes elements from s in its body and only increments pos is reported (Independents re-locates the current candidate after each walk). Not decided: that the walks reach every ancestor, the minimality of merge bases, the independent-commit reduction.",
+			"(index-holds-every-yielded-commit) the walk callback that fills MergeBase's history index enters the hash of every commit it is handed, the starting commit included — when ancestor and descendant carry timestamps the wrong way round the 'newer' commit is the ancestor and has to be found in its own index. (ancestor-by-hash) IsAncestor and isFastForward report 'found' only under a comparison of commit hashes. (cursor-recomputed-after-removal) in the same closure a loop that reads s[pos], removes elements from s in its body and only increments pos is reported (Independents re-locates the current candidate after each walk). Not decided: that the walks reach every ancestor, the minimality of merge bases, the independent-commit reduction.",
 		Assumptions: []string{"iterator types are instantiated by composite literals in their constructors (instantiated-type closure); calls through interfaces are resolved to those types only"},
 		Run:         runC42,
 	})
